@@ -17,7 +17,20 @@ line is then judged against every candidate (ok if one candidate is satisfied, f
 simulation re-enacts `Polygon3D::get_closed_loop` (nearest-vertex bridges) to decide whether every bridge is unobstructed
 (precondition of the quantifier) and how many vertices the merged outline has (used by c09).
 
-This module also exports the shared machinery for c09.py and c18.py (`Case`, `precondition`, ...)."""
+Checks on an `ok` result (valid slots only; the counter n_valid must equal the number of valid slots):
+  (a) vertex-off-plane            a vertex further than 1e-6 (f32: 1e-3 x scale) from the polygon's plane
+  (b) degenerate-triangle / orientation-flipped   exact signed area zero / of the sign opposite to the outer loop's (the crate's
+      polygon normal is the right-hand normal of the outer loop's vertex order: set_area flips the first-three-vertices normal)
+  (c) triangle-outside-outline / triangle-in-hole  vertices, centroid and edge midpoints: exact winding number, points within
+      1e-6 of an outline are not judged; `-small` suffix when the offending point is less than 1e-4 inside the wrong side
+  (d) area-mismatch               sum of exact (projected) triangle areas vs exact net area, relative 1e-7 (f32 1e-3);
+      `area-mismatch-small` when the difference is below 5e-6 m2 per outline vertex (what the crate's absolute collinearity
+      tolerance |ab x bc| < 1e-5 can remove);  triangles-overlap: the same directed edge twice, or (<= 400 triangles) two
+      mesh edges crossing properly by more than the band (`-small`: by less than 1e-4)
+Skip keys: not-built / not-ok-* (C01 speaks about successful calls), the quantifier's preconditions (outline-not-simple,
+hole-*, bridge-obstructed, refinement-outside-space, ...) and bands (band-collinear-threshold, band-bridge-tie, ...).
+
+This module also exports the shared machinery for c09.py and c18.py (`prepare`, `Case`, `combine`, ...)."""
 from fractions import Fraction
 import math
 from . import common as OC
@@ -567,6 +580,7 @@ def judge_candidate(cs, c, tris, vert_pts, refine):
     N = vector_area2(c.outer); p0 = c.outer[0]; N2 = n23(N)
     tolp = Fraction(1, 10**6) if not f32 else Fraction(1, 10**3) * Fraction(scale)
     lim = tolp * tolp * sc.U2 * N2
+    lim = lim.numerator // lim.denominator
     for p in vert_pts:
         d = dot3(sub3(p, p0), N)
         if d * d > lim:
